@@ -42,6 +42,32 @@ pub enum ParseUnicodeError {
     },
 }
 
+/// Parses a complete bytes literal token: `b` or `B`, an optional raw marker, and a body between
+/// single or triple quotes. Raw literals denote the UTF-8 encoding of their body verbatim.
+pub fn parse_bytes_literal(s: &str) -> Result<Vec<u8>, ParseSequenceError> {
+    let rest = s
+        .strip_prefix(['b', 'B'])
+        .ok_or(ParseSequenceError::MissingOpeningQuote)?;
+    let (raw, rest) = match rest.strip_prefix(['r', 'R']) {
+        Some(rest) => (true, rest),
+        None => (false, rest),
+    };
+    let delimiter = if rest.starts_with("\"\"\"") || rest.starts_with("'''") {
+        3
+    } else {
+        1
+    };
+    if rest.len() < 2 * delimiter {
+        return Err(ParseSequenceError::MissingClosingQuote);
+    }
+    let body = &rest[delimiter..rest.len() - delimiter];
+    if raw {
+        Ok(body.as_bytes().to_vec())
+    } else {
+        parse_bytes(body)
+    }
+}
+
 pub fn parse_bytes(s: &str) -> Result<Vec<u8>, ParseSequenceError> {
     let mut chars = s.chars().enumerate();
     let mut res: Vec<u8> = Vec::with_capacity(s.len());
@@ -58,7 +84,15 @@ pub fn parse_bytes(s: &str) -> Result<Vec<u8>, ParseSequenceError> {
                 }
                 Some((idx, c2)) => {
                     let byte: u8 = match c2 {
-                        'x' => {
+                        'a' => 0x07,
+                        'b' => 0x08,
+                        'v' => 0x0b,
+                        'f' => 0x0c,
+                        'n' => b'\n',
+                        'r' => b'\r',
+                        't' => b'\t',
+                        '\\' | '?' | '"' | '\'' | '`' => c2 as u8,
+                        'x' | 'X' => {
                             let hex: String = [
                                 chars
                                     .next()
